@@ -168,6 +168,9 @@ def run_ops(ops, results, cls, parse_cvss_from_text, inter, calc):
                 for so in (False, True):
                     for mi in (False, True):
                         r["json%d%d" % (so, mi)] = items_of(o.as_json(sort=so, minimal=mi))
+                # the container itself: its type and what == between differently ordered results says
+                r["json-container"] = [type(o.as_json(sort=so)).__name__ for so in (False, True)] + \
+                    [o.as_json(sort=True) == o.as_json(sort=False), o.as_json(sort=True, minimal=True) == o.as_json(sort=False, minimal=True)]
                 results.append(["ok", r])
             elif kind == "S":   # scores / severities only, for bulk comparison
                 ver, s = op[1], op[2]
@@ -198,6 +201,19 @@ def run_ops(ops, results, cls, parse_cvss_from_text, inter, calc):
                                        "clean": p.clean_vector() == f.clean_vector(), "rh": p.rh_vector() == f.rh_vector(),
                                        "json": [items_of(p.as_json(sort=so, minimal=mi)) == items_of(f.as_json(sort=so, minimal=mi))
                                                 for so in (False, True) for mi in (False, True)]}])
+            elif kind == "M":    # the other import forms
+                out = []
+                for stmt in ("from cvss import *", "import cvss.parser, cvss.interactive, cvss.exceptions, cvss.cvss_calculator",
+                             "import cvss.constants2, cvss.constants3, cvss.constants4, cvss.cvss2, cvss.cvss3, cvss.cvss4",
+                             "from cvss.exceptions import *", "from cvss.parser import *", "from cvss.cvss3 import *", "from cvss.constants4 import *"):
+                    ns = {}
+                    try:
+                        exec(stmt, ns)
+                        out.append([stmt, "ok", sorted(n for n in ns if n in ("CVSS2", "CVSS3", "CVSS4", "CVSSError", "parse_cvss_from_text",
+                                                                              "ask_interactively", "CVSS3Error", "METRICS_MANDATORY"))])
+                    except BaseException as e:  # noqa
+                        out.append([stmt, "raised", errname(e)])
+                results.append(["ok", out])
             elif kind == "X":
                 res = parse_cvss_from_text(op[1])
                 results.append(["ok", [[type(o).__name__, o.clean_vector()] for o in res]])
